@@ -7,23 +7,27 @@ import Sml.Lemmas.DecBasic
   following bytes is identical to that of a newly constructed decoder.  Consequently decoding a
   concatenation equals concatenating the decodings whenever the split falls on such a boundary."
 
-  * model : `Dec`, `Dec.step` / `Dec.run` (histories of `push_byte` / `finalize` / `reset`),
+  * model : `Dec`, `Dec.step` / `Dec.run` (histories of `push_byte` / `finalize` / `reset`, and of
+    replacements of the decoder by `Decoder::new()` / `Decoder::from_buf(buf)` with a buffer that
+    still holds stale bytes: `Op.new`, `Op.fromBuf stale`),
     `Dec.pushAll` (Sml/Model/Decode.lean, Sml/Model/Frontends.lean).
   * method (Sml/Lemmas/DecBasic.lean §7): `Dec.norm` forgets the dead fields — the digest in
     state `look` (overwritten when a start sequence completes) and, in state `done`, `raw`, `zc`,
     the digest and the buffer contents (the next operation begins with `reset`; the capacity is
-    kept).  `Dec.Equiv d d' := d.norm = d'.norm` is a bisimulation for all three operations
+    kept).  `Dec.Equiv d d' := d.norm = d'.norm` is a bisimulation for all five operations
     (`Dec.step_equiv`), and after each of the listed events the state is `Equiv` to
     `Dec.fresh cap` (`Dec.step_fresh_or`; the capacity is preserved by `Dec.run_cap`).
   * "behaviour on all following bytes" is stated for arbitrary continuations `c : List Op`
-    (bytes, and also further `finalize` / `reset` calls).
+    (bytes, and also further `finalize` / `reset` / `new` / `from_buf` calls).
 
   The theorems hold for every history, every continuation and every buffer capacity.
 -/
 namespace Sml.C14
 
 /-- The answers after which the decoder is as good as new: a transmission, an `InvalidMessage`,
-`InvalidEsc` or `OutOfMemory` error, the answer of `finalize`, the answer of `reset`.
+`InvalidEsc` or `OutOfMemory` error, the answer of `finalize`, the answer of `reset`, and the
+construction of a decoder in mid-history by `Decoder::new()` or `Decoder::from_buf(buf)` (whatever
+stale bytes `buf` holds).
 (Not `Ok(None)`, and not a `DiscardedBytes` error: that one is reported when a start sequence
 has just been recognised, i.e. in the middle of a transmission.) -/
 def Boundary : OpOut → Prop
@@ -33,6 +37,8 @@ def Boundary : OpOut → Prop
   | .out (.err .oom) => True
   | .fin _ => True
   | .reset _ => True
+  | .new => True
+  | .fromBuf => True
   | _ => False
 
 theorem boundary_cases {o : OpOut} (h : Boundary o) :
@@ -133,6 +139,28 @@ example : ∃ o, (Dec.run (Dec.fresh none)
         = some o ∧ Boundary o :=
   ⟨.fin (some (.discarded 9)), by decide +kernel, trivial⟩
 
+/-- `Decoder::new()` / `Decoder::from_buf` (with stale bytes in the buffer) in the middle of a
+transmission -/
+example : ∃ o, (Dec.run (Dec.fresh (some 4))
+      ([0x1b, 0x1b, 0x1b, 0x1b, 0x01, 0x01, 0x01, 0x01, 0x05].map Op.push ++ [.new])).2.getLast?
+        = some o ∧ Boundary o :=
+  ⟨.new, by decide +kernel, trivial⟩
+
+example : ∃ o, (Dec.run (Dec.fresh (some 4))
+      ([0x1b, 0x1b, 0x1b, 0x1b, 0x01, 0x01, 0x01, 0x01, 0x05].map Op.push ++
+        [.fromBuf [0xde, 0xad, 0xbe, 0xef]])).2.getLast? = some o ∧ Boundary o :=
+  ⟨.fromBuf, by decide +kernel, trivial⟩
+
+/-- ... after which a frame is decoded as by a new decoder: the stale bytes `de ad be ef` that
+fill the whole `ArrayBuf<4>` neither reach the payload nor cause an out-of-memory error -/
+example : (Dec.run (Dec.fresh (some 4))
+      ([0x1b, 0x1b, 0x1b, 0x1b, 0x01, 0x01, 0x01, 0x01, 0x05].map Op.push ++
+        [.fromBuf [0xde, 0xad, 0xbe, 0xef]] ++
+        [0x1b, 0x1b, 0x1b, 0x1b, 0x01, 0x01, 0x01, 0x01, 0x12, 0x34, 0x56, 0x78,
+         0x1b, 0x1b, 0x1b, 0x1b, 0x1a, 0x00, 0xb8, 0x7b].map Op.push)).2.getLast? =
+    some (.out (.msg [0x12, 0x34, 0x56, 0x78])) := by
+  decide +kernel
+
 /-- the conclusion on a concrete instance: two frames back to back -/
 example : (Dec.pushAll (Dec.fresh none)
       ([0x1b, 0x1b, 0x1b, 0x1b, 0x01, 0x01, 0x01, 0x01, 0x12, 0x34, 0x56, 0x78,
@@ -154,5 +182,28 @@ example :
 /-- `Decoder::from_buf` with any (possibly non-empty) buffer is a newly constructed decoder: the
     caller's stale bytes never reach a payload. -/
 theorem fromBuf_eq_fresh (b : Buf) : Dec.fromBuf b = Dec.fresh b.cap := rfl
+
+/-- the two constructor operations of a history: whatever the decoder was doing, and whatever
+stale bytes the buffer handed to `from_buf` holds, the result *is* (not only: is equivalent to)
+a newly constructed decoder of the same capacity -/
+theorem step_new (d : Dec) : d.step .new = (Dec.fresh d.buf.cap, .new) := rfl
+
+theorem step_fromBuf (d : Dec) (stale : List UInt8) :
+    d.step (.fromBuf stale) = (Dec.fresh d.buf.cap, .fromBuf) := rfl
+
+/-- in a history that started with `Dec.fresh cap` the capacity is `cap` throughout, so a
+`new` / `from_buf` anywhere in a history restarts it: the answers to the rest are those of a new
+decoder (special case of `boundary_fresh`, stated without the `Boundary` detour) -/
+theorem new_restarts (cap : Option Nat) (ops c : List Op) :
+    (Dec.run (Dec.fresh cap) (ops ++ .new :: c)).2 =
+      (Dec.run (Dec.fresh cap) ops).2 ++ .new :: (Dec.run (Dec.fresh cap) c).2 := by
+  rw [Dec.run_append, Dec.run_cons, Dec.step_new, Dec.run_cap ops (Dec.inv_fresh cap)]
+  rfl
+
+theorem fromBuf_restarts (cap : Option Nat) (ops c : List Op) (stale : List UInt8) :
+    (Dec.run (Dec.fresh cap) (ops ++ .fromBuf stale :: c)).2 =
+      (Dec.run (Dec.fresh cap) ops).2 ++ .fromBuf :: (Dec.run (Dec.fresh cap) c).2 := by
+  rw [Dec.run_append, Dec.run_cons, Dec.step_fromBuf, Dec.run_cap ops (Dec.inv_fresh cap)]
+  rfl
 
 end Sml.C14
